@@ -74,6 +74,11 @@ type World struct {
 	verbose    bool
 
 	Mons []Monitor
+
+	menu              []opGen
+	stepExtra         func() []TxSpec
+	providerBlockOpts func() *BlockOpts
+	consumerExtra     func(l *Link) ([]TxSpec, *BlockOpts)
 	// shadow state shared by monitors lives in their own structs
 	Shadow *Shadow
 }
